@@ -18,6 +18,9 @@ TV      one pipeline per shard, two trace-validation passes around the harness (
                          signer, key tag, labels, original TTL, expiration, inception, signature, other key, non-zone key, protocol,
                          algorithm; forged: to be signed by the standard library, incl. names differing in one octet by 0x20 for every octet value) and, for one signature in three, every bit of the
                          RRSIG RDATA and DNSKEY RDATA (quick: inside signature / public key one bit per octet)
+                         Cases 0..3 of every shard also make signatures whose integers have leading zero octets: ECDSA with R resp. S
+                         short by 1 and 2 octets (a crypto.Signer walking the nonce until the value is short, handed to the real Sign;
+                         the same shapes forged by the standard library for Verify), RSA with a leading zero octet (inception stepped).
           Trace_Dnssec   pass 1: Sign must succeed and fill the fields as SignFills says; emits SignedData for every event
           dnssec finish  (1) crypto/rsa|ecdsa|ed25519 verify the REAL signature over the SPEC's octets; (5) forged variants are signed by
                          the standard library over the SPEC's octets; real Verify on every variant -> "verify" events with
@@ -36,6 +39,8 @@ Mutants (checks/mutants/C10; each `VERIF_REPO=/tmp/comp-x bin/check C10 quick` e
   mx-not-lowercased.diff    MX exchange keeps its case                      -> finish (1) ...:MX:rdata-name-uppercase; pass 2 verify-rejects-valid:MX:rdata-name-case
   labels-off-by-one.diff    owner labels <= Labels refused                  -> pass 2 verify-rejects-valid:orig:* (every non-wildcard owner)
   protocol-unchecked.diff   DNSKEY protocol not looked at                   -> pass 2 verify-accepts-invalid:forge-key-protocol:protocol
+  ecdsa-s-left-aligned.diff sign() right-aligns R but left-aligns S in the fixed-width R|S -> finish (1) dnssec/sign-signature-encoding:ecdsa-short-s
+                            (deterministic: the signer handed to Sign makes S short by 1 and by 2 octets, P-256 and P-384, every run)
   equal-overfolds.diff      labels.go equal() takes any two octets 0x20 apart (>= 'A') for one letter: [ {, ] }, ^ ~ -> pass 2
                             verify-accepts-invalid:forge-key-owner-xor20:signer and ...:forge-rrsig-owner-xor20:owner (stdlib-signed variants whose
                             DNSKEY owner / RRSIG owner differs from the signer / RRset owner in one octet by 0x20; a window of octet values per
@@ -119,7 +124,9 @@ def run(ctx):
         algs = PAIRS[ctx.seed % 3]
         jobs += [lambda k=k: pipeline(ctx, binp, lay, str(k), ctx.seed * 1000 + k, 16, algs, 4) for k in range(3)]
         jobs += [lambda: pipeline(ctx, binp, lay, "3", ctx.seed * 1000 + 3, 3, ["RSASHA256-2048"], 0)]       # one 2048-bit key per run
-        vp.parallel(jobs, maxpar=5)
+        # both curves in every run whatever the pair: signatures with short R / short S (cases 0..3 of every shard make them)
+        jobs += [lambda: pipeline(ctx, binp, lay, "4", ctx.seed * 1000 + 4, 4, ["ECDSAP256SHA256", "ECDSAP384SHA384"], 0)]
+        vp.parallel(jobs, maxpar=6)
     else:
         jobs += [lambda k=k: pipeline(ctx, binp, lay, str(k), ctx.seed * 1000 + k, 56, ALL, 3) for k in range(12)]
         vp.parallel(jobs, maxpar=6)
